@@ -681,6 +681,11 @@ def r8(F, R):
                 any(re.search(r"TestCase::failure$", e[1]) and any(r.startswith("event@Err") or r.startswith("err") for r in T.roots(e[2])) for e in calls)
             R.check(ok, "junit/parser-error-suite", co, "a parser error becomes one suite holding one failure built from the error",
                     "a parser error is not recorded as exactly one test suite holding a failure case built from that error")
+            if ok:
+                fresh = D.mentions(addsuite[0][2][1], lambda x: isinstance(x, tuple) and len(x) == 4 and x[0] == "call" and re.search(r"TestSuiteBuilder::new$", x[1]) is not None) and \
+                    not any(r.startswith("self.") for r in T.roots(addsuite[0][2][1]))
+                R.check(fresh, "junit/parser-error-suite-is-fresh", co, "the suite of a parser error is built anew for it",
+                        "the suite added for a parser error is built from state kept in the writer (a builder that accumulates): the N-th parser error is reported with errors 1..N again")
         elif d.get("Cucumber") == "Finished":
             seen.add("Finished")
             ok = len(wxml) == 1 and {"self.report", "self.output"} <= T.roots(wxml[0][2]) and not addcase and not addsuite and not pushes
@@ -692,6 +697,12 @@ def r8(F, R):
                 not addcase and not addsuite and not wxml and not tcc
             R.check(ok, f"junit/buffered-once/{lvl}/{'|'.join(sorted(kinds))}", co, "the scenario event itself is appended once to `events`",
                     f"JUnit: a {lvl}-level scenario event ({sorted(kinds)}) is not appended exactly once (as it is) to the buffer the test case is built from")
+            if kinds == {"Started"}:
+                # every attempt's Started records its start time (Finished takes it — and panics when it is missing): on every row, not only
+                # for the first attempt
+                stamped = [e for e in p.effects if e[0] == "write" and (T.path(("ref", e[1])) or "").startswith("self.") and D.is_variant(e[2], "std::option::Option", "Some")]
+                R.check(bool(stamped), f"junit/started-stamps-time/{lvl}", co, "Scenario::Started stores the start time on every path",
+                        "a Scenario::Started (e.g. of a retried attempt) does not store the start time its Finished takes: the writer panics on that Finished and no XML is produced")
         elif is_sc:
             seen.add((lvl, "Finished"))
             take = [e for e in calls if re.search(r"mem::(take|replace)$|Vec::<.*>::drain$|split_off$", e[1]) and "self.events" in T.roots(e[2])]
